@@ -138,11 +138,83 @@ func checkC08(c *Ctx) {
 				// the only acceptable escape is on the "closed deliberately" edge: an If on a Load of an atomic flag
 				okAll = onlyViaClosedFlag(fn, call, esc)
 			}
+			// the watcher reaps the child as soon as it exits: nothing blocking may stand before the Wait
+			var blocker ssa.Instruction
+			ir.EachInstr(fn, func(_ *ssa.BasicBlock, _ int, x ssa.Instruction) {
+				blocking := false
+				switch y := x.(type) {
+				case *ssa.UnOp:
+					blocking = y.Op == token.ARROW
+				case *ssa.Select:
+					blocking = y.Blocking
+				case *ssa.Call:
+					n := ir.CallName(y)
+					blocking = n == "(*sync.WaitGroup).Wait" || n == "time.Sleep"
+				}
+				if blocking && x != ssa.Instruction(call) && flow.Reaches(x, call) {
+					blocker = x
+				}
+			})
+			c.R.Check(blocker == nil, "R-watcher-cancels", "process watcher "+fname(fn)+": reaps at once", c.Pos(call.Pos()), "no blocking operation stands before cmd.Wait",
+				sprintf("%s blocks (near %s) before it calls cmd.Wait: if that wait does not end when the child dies (a helper process still holds the pipe, the reader is stuck), the child is never reaped, the transport context is never cancelled and pending calls hang until their own deadline", fname(fn), iposI(c, blocker)))
 			c.R.Check(okAll, "R-watcher-cancels", "process watcher "+fname(fn), c.Pos(call.Pos()), "after the child is reaped the transport context is cancelled unless the transport was closed",
 				sprintf("%s can return after the child process exited without cancelling the transport context (e.g. for exit status 0): calls pending on the dead child wait for their own deadline instead of failing at once", fname(fn)))
 		})
 	}
 	c.R.Min("R-watcher-cancels", 1)
+
+	// ---- R-reader-teardown: a background reader that tears the transport down when its stream ends does so however
+	// the stream ends (clean EOF, reset, truncated chunk): every return passes the transport's close
+	if tr := c.transportIface(); tr != nil {
+		closeName := c.transportCloseMethod(tr)
+		for _, T := range c.P.Implementers(tr.Underlying().(*types.Interface)) {
+			cl := c.P.Method(T, closeName)
+			if cl == nil {
+				continue
+			}
+			for _, e := range ir.Callers(c.G, cl) {
+				fn := e.Caller.Func
+				if e.Site == nil || !c.P.IsLib(fn) {
+					continue
+				}
+				// fn is started as a goroutine and reads a stream in a loop
+				started := false
+				for _, ce := range ir.Callers(c.G, fn) {
+					if _, ok := ce.Site.(*ssa.Go); ok {
+						started = true
+					}
+				}
+				reads := false
+				ir.EachInstr(fn, func(_ *ssa.BasicBlock, _ int, in ssa.Instruction) {
+					if call, ok := in.(*ssa.Call); ok && flow.InCycle(call.Block()) {
+						switch ir.CallName(call) {
+						case "(*bufio.Reader).ReadString", "(*bufio.Reader).ReadBytes", "(*bufio.Scanner).Scan", "(*encoding/json.Decoder).Decode":
+							reads = true
+						}
+					}
+				})
+				if !started || !reads {
+					continue
+				}
+				isClose := func(x ssa.Instruction) bool {
+					cc, ok := x.(ssa.CallInstruction)
+					if !ok {
+						return false
+					}
+					for _, cal := range ir.Callees(c.G, cc) {
+						if cal == cl {
+							return true
+						}
+					}
+					return false
+				}
+				esc := flow.ExitsAvoiding(fn, nil, isClose, false)
+				c.R.Check(esc == nil, "R-reader-teardown", "stream reader "+fname(fn), c.Pos(fn.Pos()), "every return of the reader passes the transport's close",
+					sprintf("%s tears the transport down when its stream ends, but can return (near %s) without doing so: calls pending on the dead stream are never released and block until their own deadline", fname(fn), iposEsc(c, esc)))
+			}
+		}
+	}
+	c.R.Min("R-reader-teardown", 1)
 
 	c08Bodies(c, cfns)
 	c08Release(c)
@@ -822,4 +894,11 @@ func registeredIn(c *Ctx, v ssa.Value, depth int) []string {
 		return registeredIn(c, x.Tuple, depth)
 	}
 	return out
+}
+
+func iposI(c *Ctx, in ssa.Instruction) string {
+	if in == nil {
+		return "-"
+	}
+	return ipos(c, in)
 }
